@@ -457,8 +457,14 @@ def _stack_insts(M, q, insts):
     rets = returns_of(fn.node)
     inst_ok = len(rets) == 1 and isinstance(rets[0].value, ast.Call) and unparse(rets[0].value.func) in (
         "self.Stacker", "type(self).Stacker", "self.__class__.Stacker")
+    own_calls = [c for c in ast.walk(fn.node) if isinstance(c, ast.Call) and unparse(c.func) in ("self.Stacker", "type(self).Stacker", "self.__class__.Stacker")]
+    other_ctor = [c for c in ast.walk(fn.node) if isinstance(c, ast.Call) and unparse(c.func).endswith("Stacker") and c not in own_calls]
     if inst_ok:
         insts.append(R.ok("C12.R5", f"{owner}.stack.class", file, rets[0].lineno, idiom="self.Stacker (most derived)"))
+    elif own_calls and not other_ctor:
+        # the chart's own Stacker is built, but what the function returns is not that call itself (kept, looked up, chosen …)
+        insts.append(R.undec("C12.R5", f"{owner}.stack.class", file, own_calls[0].lineno,
+                             "self.Stacker(..) is built but the value returned is not that call: which object a caller gets is not decided here"))
     else:
         insts.append(R.viol("C12.R5", f"{owner}.stack.class", file, line,
                             "stack() does not instantiate the chart class's own Stacker: game-specific stacked names are lost",
